@@ -19,7 +19,10 @@ RULE = ("Hypothesis draws a system spec, a driver (server PUE / carbon intensity
         "class and k in {0.1,0.5,2,3,7.3,10}. build(spec) and build(spec x k) are compared: driven attributes must be "
         "multiplied by exactly k (or 1/k), every other calculated attribute (except the system total) must be unchanged; "
         "where a driver enters additively (country of a shared network, one device among several) linearity in k is "
-        "checked with a third build. Non-trivial = the scaled object is shared or has a sibling that must stay unchanged.")
+        "checked with a third build. In 35% of the cases the driver is also scaled by an edit of a live model (fresh or "
+        "after 0-3 edits, a quarter of them built to be refused), one input at a time or in one grouped update next to "
+        "0-3 re-submitted unchanged fields, and the same factors must hold between the values before and after. "
+        "Non-trivial = the scaled object is shared or has a sibling that must stay unchanged.")
 ASSUMPTIONS = ["ceil-based server types and storages are only required not to decrease when all traffic grows",
                "relative tolerance 1e-9"]
 BUDGET = {"quick": dict(examples=30, wall_guard_s=600), "thorough": dict(examples=500, wall_guard_s=3000)}
